@@ -4,6 +4,15 @@
 
 package ketoapi
 
+// package-level error values are initialised once and never reassigned (ASSUMED; a store to
+// one of them would be a failing obligation)
+//@ globalinv ketoapi.ErrMalformedInput: val != nil && hcode(*val) == 400
+//@ globalinv ketoapi.ErrDroppedSubjectKey: val != nil && hcode(*val) == 400
+//@ globalinv ketoapi.ErrDuplicateSubject: val != nil && hcode(*val) == 400
+//@ globalinv ketoapi.ErrIncompleteSubject: val != nil && hcode(*val) == 400
+//@ globalinv ketoapi.ErrNilSubject: val != nil && hcode(*val) == 400
+//@ globalinv ketoapi.ErrIncompleteTuple: val != nil && hcode(*val) == 400
+
 // A message as it comes from the wire (assumption T8): a oneof wrapper that is present
 // wraps a non-nil pointer and, for subject sets, a non-nil set.
 //@ spec wfwiresubject(s *rts.Subject) bool = s != nil ==> (istype(s.Ref, *rts.Subject_Set) ==> as(s.Ref, *rts.Subject_Set) != nil && as(s.Ref, *rts.Subject_Set).Set != nil) && (istype(s.Ref, *rts.Subject_Id) ==> as(s.Ref, *rts.Subject_Id) != nil)
